@@ -37,6 +37,7 @@ RULE = ("handshakes between a real UdpClient (pinned key) and the real server lo
         "challenge authenticates but carries a wrong token, or a late duplicate hits a promoted connection; distinct by "
         "(attack class, field / op, schedule, seed).")
 RULE += (" " + 'Round-8 addition: the edited server hello may reach the client 0.4-2.3 s after the genuine one was lost (a client that has been waiting, retrying and timing for most of - or longer than - its connect timeout).')
+RULE += (" " + 'Round-9 addition: hello kind pretrusted - a decoy client object of the same process, pinned to the attacker key, first accepts an attacker-signed hello (legitimate for it); the victim, pinned to the server key, then receives byte-identical hello bytes.')
 ASSUMPTIONS = [
     "ECDSA / ECDH / HKDF from `cryptography` are trusted; the attacker holds no private key of the server or client",
     "the client is configured with a pinned server public key (trust-on-first-use clients are outside the property)",
@@ -66,7 +67,8 @@ attack = st.one_of(
     st.fixed_dictionaries({"cls": st.just("hello"), "kind": st.sampled_from([
         "attacker-signed", "attacker-signed-keep-root", "swap-pubkey", "swap-salt", "swap-token", "swap-root-only",
         "other-session", "wrong-pin", "other-type", "sig-reencode", "empty-sig", "payload-extra",
-        "sig-null", "sig-int", "sig-str", "sig-bool", "sig-list", "sig-float", "sig-null", "sig-int"]),
+        "sig-null", "sig-int", "sig-str", "sig-bool", "sig-list", "sig-float", "sig-null", "sig-int",
+        "pretrusted", "pretrusted"]),
         # the genuine hello is lost and the edited one reaches the client this much later: the client has been waiting (and
         # running its update loop, timers, retries) for a good part of - or longer than - its 2 s connect timeout
         "delay": st.sampled_from([0.002, 0.002, 0.002, 0.002, 0.4, 0.75, 1.45, 1.9, 2.3])}),
@@ -244,6 +246,10 @@ class Mitm(object):
         elif kind == "other-session":
             otid, oroot, opayload, osig = split_hello(self.other)
             new = join_hello(tid, oroot, opayload, osig)
+        elif kind == "pretrusted":
+            # byte-identical copy of an attacker-signed hello that ANOTHER client object of this process - pinned to the
+            # attacker's key, e.g. a player who also visits the attacker's own server - accepted a moment ago (set up by the caller)
+            new = self.pretrusted_msg if self.pretrusted_msg is not None else msg
         elif kind == "wrong-pin":
             new = msg   # untouched hello; the CLIENT is pinned to another key (set up by the caller)
         elif kind == "other-type":
@@ -372,8 +378,37 @@ def body(ctx, c, stats=None):
             verify_calls[0] += 1
             return real_verify(sig, data)
         pinned.verify = counting_verify
+        pre_msg = None
+        if a["cls"] == "hello" and a["kind"] == "pretrusted":
+            # a decoy client of the same process pinned to the ATTACKER's root key completes the hello step with a hello the
+            # attacker signed (legitimate for that client).  The victim, pinned to the server's key, then receives the same bytes
+            atk_root0 = W.derive_key(W.Entropy(("c02-attacker", c["seed"])).int(256))
+            decoy = w.add_client(laddr=("10.0.2.8", 4666), server_public_key=atk_root0.getPublicKey())
+            holder = {}
+
+            def decoy_policy(em):
+                h = W.parse_header(em.data)
+                if em.dst == decoy.laddr and h.type == W.T_SERVER_HELLO and "msg" not in holder:
+                    p = W.parse_datagram(em.data, None)
+                    tid, root_, payload_, sig_ = split_hello(p.msgs[0][2])
+                    pub_, salt_, token_ = split_payload(payload_)
+                    eph = W.derive_key(W.Entropy(("c02-decoy-eph", c["seed"])).int(256))
+                    pl = ser(eph.getPublicKey().getBytes()) + ser(salt_) + ser(token_)
+                    holder["msg"] = join_hello(tid, atk_root0.getPublicKey().getBytes(), pl, atk_root0.sign(pl))
+                    w.net.push(em.t + 0.002, em.dst, em.src, rebuild_hello_datagram(em.data, holder["msg"]))
+                    return []
+                return [0.002]
+            w.net.policy = decoy_policy
+            decoy.connect()
+            for _ in range(8):
+                w.step(0.02)
+            decoy.alive = False
+            pre_msg = holder.get("msg")
+            if pre_msg is None or decoy.conn is None or decoy.conn.session_key_bytes is None:
+                pre_msg = None      # the decoy did not get that far: the case degenerates to an untouched handshake
         ch = w.add_client(server_public_key=pinned)
         mitm = Mitm(w, ch, c, atk_ent, other_hello)
+        mitm.pretrusted_msg = pre_msg
         if a["cls"] == "challenge" and a.get("kind") == "other-pending-token":
             # a third party whose handshake stays pending (its challenge response is lost)
             third = w.add_client(laddr=("10.0.2.7", 4555))
